@@ -108,6 +108,17 @@ def _type_name_and_keys(m, ci):
             t = kwarg(n, 'type')
             if isinstance(t, ast.Constant):
                 keys = {k.arg for k in n.keywords if k.arg and k.arg != 'type'}
+                # `**self._int_limits()`: the keys of the dict display a helper method of the class returns
+                for k in n.keywords:
+                    kv = resolved(k.value, ed.node) if k.arg is None and isinstance(k.value, ast.Name) else k.value
+                    if k.arg is None and isinstance(kv, ast.Dict) and all(isinstance(kk, ast.Constant) for kk in kv.keys):
+                        keys |= {kk.value for kk in kv.keys}
+                    if k.arg is None and isinstance(k.value, ast.Call) and isinstance(k.value.func, ast.Attribute) and dotted(k.value.func.value) == 'self' \
+                            and m.has_method(ci.qualname, k.value.func.attr):
+                        h = m.method(ci.qualname, k.value.func.attr)
+                        rets = [r.value for r in body_walk(h.node) if isinstance(r, ast.Return) and r.value is not None]
+                        if len(rets) == 1 and isinstance(rets[0], ast.Dict) and all(isinstance(kk, ast.Constant) for kk in rets[0].keys):
+                            keys |= {kk.value for kk in rets[0].keys}
                 # an override of get_info in the class adds its own explicit keys (super().get_info(min=..., max=...))
                 for q in m.mro(ci.qualname):
                     c2 = m.classes.get(q)
@@ -429,7 +440,7 @@ def _grid_quotients(m):
         for c in calls_in(f.node):
             if dotted(c.func) == 'int' and c.args:
                 a = c.args[0]
-                if any(isinstance(x, ast.BinOp) and isinstance(x.op, ast.Div) and src(x.right) == 'self.scale' for x in ast.walk(a)):
+                if any(isinstance(x, ast.BinOp) and isinstance(x.op, ast.Div) and src(resolved(x.right, f.node)) == 'self.scale' for x in ast.walk(a)):
                     out.append((f, c))
     return out
 
